@@ -211,6 +211,9 @@ func (conn *Conn) send(call *Call) {
 	seq := conn.seq
 	var isStreaming bool
 	var closeStreaming bool
+	// the call must not be touched after the write unless it is still registered:
+	// the reader's final sweep may have completed it and its caller may have recycled it
+	opening := call.upgrade.Stream == openStream
 	if call.upgrade.Stream > 0 {
 		switch call.upgrade.Stream {
 		case openStream:
@@ -248,7 +251,7 @@ func (conn *Conn) send(call *Call) {
 			registered = false
 		}
 		delete(conn.pending, seq)
-		if call.upgrade.Stream == openStream {
+		if opening {
 			delete(conn.streams, seq)
 		}
 		conn.mutex.Unlock()
